@@ -8,7 +8,7 @@ import gen_scripts as G
 PROP_FILES = ["Properties/C10.v"]
 RULE = ("for each limit L in {520-byte push, 1000 stack+alt items, 201 counted ops (incl. multisig key counts), 10000-byte script, 20 multisig keys, "
         "4/5-byte numeric operands}: scripts reaching L-1, L, L+1 by every listed route (direct pushes, DUP chains, alt-stack moves, 3DUP bursts, "
-        "unexecuted branches, the same inside a scriptPubKey / P2SH redeem script, scriptPubKey size after a scriptSig, op count carried across scriptSig->scriptPubKey (reset), CHECKMULTISIG key counts) x {BASE, WITNESS_V0, TAPSCRIPT}, "
+        "unexecuted branches, initial witness items, op count across step/rewind walks, the same inside a scriptPubKey / P2SH redeem script, scriptPubKey size after a scriptSig, op count carried across scriptSig->scriptPubKey (reset), CHECKMULTISIG key counts) x {BASE, WITNESS_V0, TAPSCRIPT}, "
         "run with ContinueScript and the final state/error compared with the model; non-trivial = all")
 
 def gen(chk):
@@ -34,6 +34,10 @@ def gen(chk):
                     add(bytes([O("OP_1")]), sv=sv, extra="succ=%s " % G.hexs(body))
                     h = hashlib.new("ripemd160", hashlib.sha256(body).digest()).digest()
                     add(bytes([O("OP_HASH160"), 20]) + h + bytes([O("OP_EQUAL")]), st=[body], fl=G.FLAG("P2SH"), sv=sv)
+        # initial (witness) stack items are limited like pushes in segwit v0 and tapscript
+        for n in (519, 520, 521, 522):
+            add(bytes([O("OP_DROP"), O("OP_1")]), st=[bytes(n)], sv=sv)
+            add(bytes([O("OP_2DROP"), O("OP_1")]), st=[bytes(n), b"\x01"], sv=sv)
         # stack size via initial stack + DUP chains / 3DUP / alt moves
         for total in (998, 999, 1000, 1001, 1002):
             add(bytes([O("OP_1")] * total), sv=sv)
@@ -57,6 +61,11 @@ def gen(chk):
                 h = hashlib.new("ripemd160", hashlib.sha256(redeem).digest()).digest()
                 spk = bytes([O("OP_HASH160"), 20]) + h + bytes([O("OP_EQUAL")])
                 add(G.push(redeem), sv=sv, fl=G.FLAG("P2SH"), extra="succ=%s " % G.hexs(spk))
+        # ... the count is part of what rewind restores: stepping, rewinding and running on must not count an operation twice
+        for n in (200, 201, 202):
+            add(bytes([O("OP_NOP")] * n + [O("OP_1")]), sv=sv, cmds="s,r,c")
+            add(bytes([O("OP_NOP")] * n + [O("OP_1")]), sv=sv, cmds=",".join(["s"] * 100 + ["r"] * 100 + ["c"]))
+            add(bytes([O("OP_NOP")] * n + [O("OP_1")]), sv=sv, cmds=",".join(["s"] * 60 + ["r"] * 30 + ["s"] * 10 + ["r"] * 40 + ["c"]))
         # script size
         for n in (9999, 10000, 10001):
             add(bytes([O("OP_1")] + [O("OP_NOP")] * 0) + G.push(bytes(75)) * ((n - 1) // 76) + bytes([O("OP_1")] * ((n - 1) % 76)), sv=sv, cmds="s")
